@@ -393,14 +393,14 @@ def w_machine(acc, n, seed):
         def agrees(self):
             if not self.inp["ops"]:
                 return
-            res = o_mapping(self.inp)
+            res = harness.eval_oracle(PROP, "mapping", o_mapping, self.inp)
             if res[0] is not None:
                 state["last"] = (copy.deepcopy(self.inp), res[0])
                 raise AssertionError(res[0][0])
 
         def teardown(self):
             if self.inp["ops"]:
-                res = o_mapping(self.inp)
+                res = harness.eval_oracle(PROP, "mapping", o_mapping, self.inp)
                 if res[0] is None:
                     acc.record("mapping", copy.deepcopy(self.inp), res)
 
